@@ -1,2 +1,24 @@
+import Holpy.C13.Model
+/-
+C14 — what a suggestion advertises, on the C13 model of `apply_tactic`.
+
+A method that goes through `ProofState.apply_tactic` builds a proof term; `search` advertises the
+propositions of its gaps (`_goal: [gap.prop for gap in pt.gaps]`), `apply` splices the exported
+lines of the same term (`Holpy.C13.applyTactic`).  A forward method (`_fact`) inserts one line
+before the goal (`add_line_before(id, 1)` + `set_line`).
+-/
 namespace Holpy.C14
+open Holpy.C13
+
+/-- The gaps of an exported proof term: the stated sequents of its `sorry` lines. -/
+def gaps (new : List NewLine) : List (Option Seq) :=
+  (new.filter (fun l => l.item.rule = ruleSorry)).map (fun l => l.item.th)
+
+/-- A forward step (`rewrite_fact`, `apply_forward_step`, `apply_fact`, `forall_elim`, …):
+one new proved line with rule `r`, citations `p` and computed sequent `th` before the goal `id`. -/
+def forwardFact (s : Proof) (id : IId) (r : Nat) (p : List IId) (th : Option Seq) : Except Err Proof :=
+  match addLineBefore s id 1 with
+  | .ok s1 => setLine s1 id r p th
+  | .error e => .error e
+
 end Holpy.C14
